@@ -25,7 +25,10 @@ def workdir(name):
 
 
 def _java_cmd(module, cfg=None, workers=1, extra=(), metadir=None, props=(), heap=None):
-    cmd = ["java", "-XX:+UseParallelGC"]
+    # TLC evaluates the recursive operators of the specs (BC, WFM, EvalX, ...) on the Java stack; how many Java frames one TLA+
+    # level costs depends on the JIT state, so a run close to the default 1 MB limit can overflow on one machine and pass on
+    # another (check request 4: JudgeBreakCycles).  A large thread stack removes that dependence.
+    cmd = ["java", "-XX:+UseParallelGC", "-Xss%s" % os.environ.get("VERIF_TLC_STACK", "256m")]
     if heap:
         cmd.append("-Xmx%s" % heap)
     for p in props:
